@@ -212,6 +212,102 @@ def check_dict(rep, mod, S):
                      sample='%s: memcpy after length vs %d test' % (fn, codes['HIST']))
 
 
+def check_mask_fresh(rep, mod, S):
+    """must-pass-through with one path-sensitive variable (has_hist): the caller may change hist_bits between streams,
+    so in every call that starts matching from a 'stream start' state the window masks must be recomputed from the
+    current hist_bits before the first body call - the zlib header written by the same call advertises the current hist_bits."""
+    R = rep.rule('R-DISTMASK-FRESH', 'isal_deflate: for every stream-start value of state->has_hist (every constant stored to has_hist anywhere in the library except IGZIP_HIST, the value that marks an '
+                 'established window), no path from entry under has_hist == value reaches the compression body (isal_deflate_int) without first calling set_dist_mask and set_hash_mask; '
+                 'isal_deflate_stateless: no path at all reaches isal_deflate_int_stateless without them', floor=4, unit='(function, state) pairs')
+    hv, _ = mirror.c_values('default', ['igzip_lib.h'], [('IGZIP_HIST', 'IGZIP_HIST')], 'c17_hist')
+    off = c19.field_offsets('struct isal_zstream', ['internal_state.has_hist'])['internal_state.has_hist']
+    soff = c19.field_offsets('struct isal_zstate', ['has_hist'])['has_hist']
+    # the state values: constants stored to the field anywhere
+    values = {}
+    for fn, f in mod.funcs.items():
+        P = irrules.prov(mod, f)
+        for i in f.all_insns():
+            if i.op == 'store' and re.match(r'^\d+$', i.ops[0]):
+                at = P.atoms(i.ops[1])
+                if any(a[0] == 'param' and a[2] in (off, soff) for a in at) and len(at) == 1:
+                    a = list(at)[0]
+                    pty = f.params[a[1]][0] if a[1] < len(f.params) else ''
+                    want = off if 'isal_zstream' in pty else soff if 'isal_zstate' in pty else None
+                    if want is not None and a[2] == want:
+                        values.setdefault(int(i.ops[0]), []).append(mod.where(f, i))
+    if len(values) < 3 or hv['IGZIP_HIST'] not in values:
+        raise AnalysisBroken('R-DISTMASK-FRESH: expected stores of at least three has_hist states incl. IGZIP_HIST, found %s' % sorted(values))
+    starts = sorted(v for v in values if v != hv['IGZIP_HIST'])
+
+    def is_hist_load(f, P, v):
+        v = irrules._strip(f, v)
+        d = f.defs.get(v)
+        return d is not None and d.op == 'load' and P.atoms(d.ops[0]) == {('param', 0, off)}
+
+    def explore(f, body, need, assume):
+        """-> list of (body call insn, missing callee set) reachable from entry under has_hist == assume (None: no assumption)"""
+        P = irrules.prov(mod, f)
+        bad = []
+        seen = set()
+        work = [(f.order[0], frozenset(), assume is not None)]
+        while work:
+            b, done, known = work.pop()
+            if (b, done, known) in seen:
+                continue
+            seen.add((b, done, known))
+            blk = f.blocks[b]
+            for i in blk.insns:
+                if i.op == 'call':
+                    c = base(i.callee)
+                    if c in need:
+                        done = done | {c}
+                    elif c in body:
+                        if not need <= done:
+                            bad.append((i, need - done))
+                    elif known and not i.callee.startswith('llvm.'):
+                        w = S.W.get(i.callee)
+                        if w is None or any(a == llir.UNK or (a[0] == 'param' and a[2] in (off, soff, None)) for a in w):
+                            known = False      # the callee may change has_hist: stop using the assumption
+                elif i.op == 'store' and known and any(a[0] == 'param' and a[2] in (off, None) for a in P.atoms(i.ops[1])):
+                    known = False
+            if need <= done:
+                continue
+            t = blk.insns[-1]
+            succs = list(blk.succs)
+            if known and t.op == 'br' and t.extra.get('cond'):
+                c = f.defs.get(t.extra['cond'])
+                if c is not None and c.op == 'icmp' and c.extra['pred'] in ('eq', 'ne'):
+                    for x, k in ((c.ops[0], c.ops[1]), (c.ops[1], c.ops[0])):
+                        if re.match(r'^\d+$', k) and is_hist_load(f, P, x):
+                            truth = (assume == int(k)) == (c.extra['pred'] == 'eq')
+                            succs = [t.extra['targets'][0 if truth else 1]]
+            elif known and t.op == 'switch' and is_hist_load(f, P, t.ops[0]):
+                cases = dict(t.extra['cases'])
+                succs = [cases.get(assume, cases.get(str(assume), t.extra['default']))]
+            for n in succs:
+                work.append((n, done, known))
+        return bad
+    need = {'set_dist_mask', 'set_hash_mask'}
+    f = mod.funcs.get('isal_deflate')
+    g = mod.funcs.get('isal_deflate_stateless')
+    if f is None or g is None:
+        raise AnalysisBroken('isal_deflate / isal_deflate_stateless not found')
+    for fn, fobj, body, assumes in (('isal_deflate', f, {'isal_deflate_int'}, starts), ('isal_deflate_stateless', g, {'isal_deflate_int_stateless'}, [None])):
+        if not any(i.op == 'call' and base(i.callee) in body for i in fobj.all_insns()):
+            raise AnalysisBroken('%s does not call %s' % (fn, sorted(body)))
+        for a in assumes:
+            R.instance()
+            bad = explore(fobj, body, need, a)
+            R.check(not bad, mod.where(fobj, bad[0][0]) if bad else fn,
+                    '%s: with has_hist == %s on entry (state stored at %s) the call of %s is reachable without a preceding call of %s: the window masks keep whatever an earlier hist_bits produced while the header advertises the current one'
+                    % (fn, a, values.get(a, ['-'])[0] if a is not None else '-', sorted(body)[0], sorted(bad[0][1]) if bad else ''),
+                    key='R-DISTMASK-FRESH|%s|%s' % (fn, a), sample='%s: has_hist=%s -> masks recomputed before the body' % (fn, a))
+
+
+def base(n):
+    return re.sub(r'\.\d+$', '', n)
+
+
 def main(tier):
     rep = Report('C17', tier, level='other')
     rep.undecided = UNDECIDED
@@ -226,6 +322,7 @@ def main(tier):
     for c in CONFIGS:
         check_mask_range(rep, c)
     check_dict(rep, mod, S)
+    check_mask_fresh(rep, mod, S)
     try:
         import c17_asm
         c17_asm.check(rep)
